@@ -264,9 +264,19 @@ impl Shadow {
         }
         false
     }
+    /// `H5V.Model.Dom.attrKey`: what identifies an attribute — the expanded name (namespace, local);
+    /// in no namespace the (unresolved) prefix is kept
+    fn attr_key(q: &QualName) -> (Option<String>, String, String) {
+        if q.ns.is_empty() {
+            (q.prefix.as_ref().map(|p| p.to_string()), String::new(), q.local.to_string())
+        } else {
+            (None, q.ns.to_string(), q.local.to_string())
+        }
+    }
     fn attr_names_nodup(attrs: &[Attribute]) -> bool {
         for (i, a) in attrs.iter().enumerate() {
-            if attrs[i + 1..].iter().any(|b| b.name == a.name) {
+            let ka = Self::attr_key(&a.name);
+            if attrs[i + 1..].iter().any(|b| Self::attr_key(&b.name) == ka) {
                 return false;
             }
         }
